@@ -8,25 +8,44 @@
 (* contain") is the declarative reading: SOME mapping of the list, wherever*)
 (* it stands and whatever precedes it, with closed-open ranges whose ends  *)
 (* may coincide.  ModuleList takes the result as the `inUser` fact.        *)
+(*                                                                         *)
+(* Mappings are (start, size) pairs of machine words 0..Top.  A mapping of *)
+(* the target fits into the address space (the kernel reports it); a       *)
+(* caller-supplied one need not: start + size may exceed Top ("from here   *)
+(* to the end", size = usize::MAX).  `Extent` says how the code forms the  *)
+(* end of a range: "saturating" (the current tree), "wrapping" (plain `+`  *)
+(* without overflow checks) or "panicking" (plain `+` with them) - C02.    *)
 (***************************************************************************)
 EXTENDS Naturals, Sequences, FiniteSets, TLC
-CONSTANTS MaxUsers, Addr        \* Addr: the address universe 0..Addr
-Range == {r \in [s : 0..Addr, e : 0..Addr] : r.s < r.e}
-Contains(u, m) == u.s <= m.s /\ m.e <= u.e
+CONSTANTS MaxUsers, Top, Extent
+Word == 0..Top
+TargetMap == {r \in [s : Word, n : 1..Top] : r.s + r.n <= Top}
+UserMap == [s : Word, n : 1..Top]
+(* the mathematical reading: the addresses s .. s + n - 1 that exist *)
+Contains(u, m) == u.s <= m.s /\ m.s + m.n <= u.s + u.n
 ContainedDecl(m, users) == \E k \in 1..Len(users) : Contains(users[k], m)
+Overflows(r) == r.s + r.n > Top
+End(r) == CASE Extent = "saturating" -> IF Overflows(r) THEN Top ELSE r.s + r.n
+            [] Extent = "wrapping"   -> (r.s + r.n) % (Top + 1)
+            [] OTHER                 -> r.s + r.n          \* "panicking": only evaluated when it does not overflow
 
 VARIABLES m, users, k, res, pc
 vars == <<m, users, k, res, pc>>
-Init == /\ m \in Range /\ users \in UNION {[1..n -> Range] : n \in 0..MaxUsers}
-        /\ k = 1 /\ res = FALSE /\ pc = "loop"
-(* for user in user_mapping_list { if self.start >= user.start && self.end <= user.end { return true } } false *)
+Init == /\ m \in TargetMap /\ users \in UNION {[1..n -> UserMap] : n \in 0..MaxUsers}
+        /\ k = 1 /\ res = "none" /\ pc = "loop"
+(* for user in user_mapping_list { if self.start >= user.start && end(self) <= end(user) { return true } } false
+   - `&&` does not evaluate its right side when the left one is false *)
 Step == /\ pc = "loop"
-        /\ IF k > Len(users) THEN pc' = "done" /\ res' = FALSE /\ UNCHANGED k
-           ELSE IF m.s >= users[k].s /\ m.e <= users[k].e THEN pc' = "done" /\ res' = TRUE /\ UNCHANGED k
-           ELSE k' = k + 1 /\ UNCHANGED <<pc, res>>
+        /\ IF k > Len(users) THEN pc' = "done" /\ res' = "false" /\ UNCHANGED k
+           ELSE IF m.s >= users[k].s
+                  THEN IF Extent = "panicking" /\ Overflows(users[k]) THEN pc' = "done" /\ res' = "panic" /\ UNCHANGED k
+                       ELSE IF End(m) <= End(users[k]) THEN pc' = "done" /\ res' = "true" /\ UNCHANGED k
+                       ELSE k' = k + 1 /\ UNCHANGED <<pc, res>>
+                  ELSE k' = k + 1 /\ UNCHANGED <<pc, res>>
         /\ UNCHANGED <<m, users>>
 Next == Step
 Spec == Init /\ [][Next]_vars /\ WF_vars(Next)
-C08_SuppressedIffContained == pc = "done" => res = ContainedDecl(m, users)
+C02_NoPanic == res # "panic"
+C08_SuppressedIffContained == pc = "done" /\ res # "panic" => (res = "true") = ContainedDecl(m, users)
 Terminates == <>(pc = "done")
 =============================================================================
